@@ -38,12 +38,21 @@ def run(tier):
         s = int([1, 2, 4, 4][k % 4])
         dist = int([2, 3, 5, 1, 2][k % 5])
         inten = float([0.5, 5.0, 30.0][k % 3])
+        whole = (k % 7 == 3)
+        if whole:
+            # arms that span the whole image: cbca_distance >= the image size, flat images, no window offset
+            off, s = 0, 1
+            rows, cols = int(rng.randint(2, 5)), int(rng.randint(2, 6))
+            dist = max(rows, cols) + int(rng.randint(0, 3))
         nd = int(rng.randint(1, 4)) * s - (s - 1) if s > 1 else int(rng.randint(1, 5))
         nd = max(nd, 1)
         dmin = int(rng.randint(-2, 2)) if s == 1 else int(rng.randint(-2, 0))
         L = vals[rng.randint(0, len(vals), size=(rows, cols))]
         R = vals[rng.randint(0, len(vals), size=(rows, cols))]
-        if k % 3 == 0 and s == 1:       # large flat areas so that arms reach cbca_distance
+        if whole:
+            L[:, :] = 7
+            R[:, :] = 7
+        elif k % 3 == 0 and s == 1:       # large flat areas so that arms reach cbca_distance
             L[:, :] = 10
             R[:, :] = 10
             L[rng.randint(rows), rng.randint(cols)] = 40
@@ -72,11 +81,19 @@ def run(tier):
         cv = build.make_cv(costs, dmin=dmin, subpix=s, window_size=1 + 2 * off)
         left = build.make_image(L, mask=mL, disp=(dmin, dmin + (nd - 1) // s))
         right = build.make_image(R, mask=mR)
-        feat = {"rows": rows, "cols": cols, "offset": off, "subpix": s, "distance": dist, "intensity": inten, "masks": mask_mode, "nd": nd}
+        reused = (k % 4 == 1)
+        feat = {"rows": rows, "cols": cols, "offset": off, "subpix": s, "distance": dist, "intensity": inten, "masks": mask_mode, "nd": nd,
+                "distance_reaches_image_size": bool(dist >= max(rows, cols)), "aggregation_object_reused": reused}
         chk.count((rows, cols, off, s, dist, inten, mask_mode, nd, k))
         before = cv["cost_volume"].data.copy()
         try:
             agg = aggregation.AbstractAggregation(aggregation_method="cbca", cbca_intensity=inten, cbca_distance=dist)
+            if reused:
+                # the machine uses ONE aggregation object for the left and then the right cost volume: a first volume of the same
+                # shape with another NaN pattern must leave nothing behind
+                decoy = before.copy()
+                decoy[rng.rand(*decoy.shape) < 0.5] = np.nan
+                agg.cost_volume_aggregation(right, left, build.make_cv(decoy, dmin=dmin, subpix=s, window_size=1 + 2 * off))
             agg.cost_volume_aggregation(left, right, cv)
         except Exception as exc:  # pylint: disable=broad-except
             chk.violation("total", dict(distance=dist, subpix=s, exception=type(exc).__name__), {"features": feat, "exception": repr(exc)[:300]},
